@@ -1,8 +1,8 @@
 (* C18 — Date, time and number values are validated and ordered as HTML prescribes.
    Only statements, `exact`, and Print Assumptions.  validate_* are the functions
    REGENERATED from soupsieve/css_match.py (gen/PureGen.v). *)
-From SV Require Import Base Calendar CalendarFacts.
-From SV.gen Require Import PureGen.
+From SV Require Import Base Regex RunFacts Lit Inputs Calendar CalendarFacts DateShape.
+From SV.gen Require Import PureGen RegexGen.
 Local Open Scope Z_scope.
 
 (* The closed form used throughout is the sum of the (leap-aware) year lengths. *)
@@ -73,3 +73,85 @@ Example C18_nonvacuous :
   valid_date 2024 2 29 /\ valid_date 1 1 1 /\ iso_weeks 2020 = 53 /\ iso_weeks 2019 = 52 /\
   validate_week 2020 53 = Ok true /\ validate_day 1900 2 29 = false /\ validate_day 2000 2 29 = true.
 Proof. unfold valid_date. repeat split; vm_compute; try reflexivity; try discriminate. Qed.
+
+(* ---- the shapes: the five anchored patterns REGENERATED from css_match.py are sequences of captured digit runs and
+   literal separators; for such patterns the backtracking matcher finds exactly what a left-to-right split finds
+   (RunFacts.ends_items, for every subject), so parse_value is, for EVERY string, "split, convert, validate" ---- *)
+Theorem C18_patterns_are_run_sequences :
+  cm_RE_DATE = Seq AtStart (to_re date_items) /\ cm_RE_MONTH = Seq AtStart (to_re month_items) /\
+  cm_RE_WEEK = Seq AtStart (to_re week_items) /\ cm_RE_TIME = Seq AtStart (to_re time_items) /\
+  cm_RE_DATETIME = Seq AtStart (to_re datetime_items).
+Proof. exact shapes. Qed.
+Print Assumptions C18_patterns_are_run_sequences.
+
+Theorem C18_run_sequence_matching : forall p, wf p = true -> forall st c,
+  ends (to_re p) st c = match scan_items p st c with Some x => [x] | None => [] end.
+Proof. exact ends_items. Qed.
+Print Assumptions C18_run_sequence_matching.
+
+Theorem C18_parse_date : forall s,
+  parse_value T_date s =
+  match fields date_items s with
+  | Some [ys; ms; ds] =>
+    ok_if (validate_year (int10 ys) && validate_month (int10 ms) && validate_day (int10 ys) (int10 ms) (int10 ds))
+          (PTuple [int10 ys; int10 ms; int10 ds])
+  | _ => Ok None
+  end.
+Proof. exact parse_date. Qed.
+Print Assumptions C18_parse_date.
+
+Theorem C18_parse_month : forall s,
+  parse_value T_month s =
+  match fields month_items s with
+  | Some [ys; ms] => ok_if (validate_year (int10 ys) && validate_month (int10 ms)) (PTuple [int10 ys; int10 ms])
+  | _ => Ok None
+  end.
+Proof. exact parse_month. Qed.
+Print Assumptions C18_parse_month.
+
+Theorem C18_parse_week : forall s,
+  parse_value T_week s =
+  match fields week_items s with
+  | Some [ys; ws] =>
+    if validate_year (int10 ys) then (do b <- validate_week (int10 ys) (int10 ws) ;; ok_if b (PTuple [int10 ys; int10 ws])) else Ok None
+  | _ => Ok None
+  end.
+Proof. exact parse_week. Qed.
+Print Assumptions C18_parse_week.
+
+Theorem C18_parse_time : forall s,
+  parse_value T_time s =
+  match fields time_items s with
+  | Some [hs; ms] => ok_if (validate_hour (int10 hs) && validate_minutes (int10 ms)) (PTuple [int10 hs; int10 ms])
+  | _ => Ok None
+  end.
+Proof. exact parse_time. Qed.
+Print Assumptions C18_parse_time.
+
+Theorem C18_parse_datetime : forall s,
+  parse_value T_datetime s =
+  match fields datetime_items s with
+  | Some [ys; ms; ds; hs; mis] =>
+    ok_if (validate_year (int10 ys) && validate_month (int10 ms) && validate_day (int10 ys) (int10 ms) (int10 ds) &&
+           validate_hour (int10 hs) && validate_minutes (int10 mis))
+          (PTuple [int10 ys; int10 ms; int10 ds; int10 hs; int10 mis])
+  | _ => Ok None
+  end.
+Proof. exact parse_datetime. Qed.
+Print Assumptions C18_parse_datetime.
+
+(* END TO END for type=date, both directions, every string: accepted with fields (y, m, d)  <=>  a valid HTML date string *)
+Theorem C18_date_sound : forall s y m d,
+  parse_value T_date s = Ok (Some (PTuple [y; m; d])) ->
+  exists ys ms ds, s = ys ++ [45%N] ++ ms ++ [45%N] ++ ds /\ digits ys /\ digits ms /\ digits ds /\
+                   (4 <= length ys)%nat /\ length ms = 2%nat /\ length ds = 2%nat /\
+                   y = int10 ys /\ m = int10 ms /\ d = int10 ds /\ valid_date y m d.
+Proof. exact date_end_to_end. Qed.
+Print Assumptions C18_date_sound.
+
+Theorem C18_date_complete : forall ys ms ds, digits ys -> digits ms -> digits ds ->
+  (4 <= length ys)%nat -> length ms = 2%nat -> length ds = 2%nat ->
+  valid_date (int10 ys) (int10 ms) (int10 ds) ->
+  parse_value T_date (ys ++ [45%N] ++ ms ++ [45%N] ++ ds) = Ok (Some (PTuple [int10 ys; int10 ms; int10 ds])).
+Proof. exact date_complete. Qed.
+Print Assumptions C18_date_complete.
